@@ -22,6 +22,7 @@
 -/
 import PercevalModel.Lemmas.C18
 import PercevalModel.Lemmas.C18Ext
+import PercevalModel.Lemmas.C18Race
 
 namespace PM.C18
 open PM.SM
@@ -959,5 +960,222 @@ example : (∀ e ∈ [CEv.caller (.execSync call0), .tick .none, .tick (.dict no
       (cinit cfg0 { reports := [1, 2], result := ret0, partialResult := .none, policy := .raise })
       [.caller (.execSync call0), .tick .none, .tick (.dict none), .caller .statusQuery, .tick (.dict (some false)),
        .tick .none]).job.phase = .done := by decide
+
+/-! # Round 4: the asynchronous run under EVERY schedule of single shared-memory accesses
+(model: `Model/C18Race.lean`, helpers: `Lemmas/C18Race.lean`)
+
+The theorems above take whole API calls and whole task steps as atoms.  Here the atoms are single accesses to the
+memory the caller thread and the worker thread share (`_status`, `_stop_message`, `_running_progress`, `_results`,
+`_cancel_requested`, liveness of the thread); a schedule is a word over `REv`, `rafter fixed cfg w` the job after it.
+`fixed = true` is the code with `fixes/C18-status-race.diff` (the liveness test of `LocalJob.status` first),
+`fixed = false` the code before it: there a status query that reads RUNNING, is overtaken by the worker's last steps
+and then finds the thread dead "repairs" the final status to SUCCESS. -/
+
+/-- sample schedule: the task raises while a status query is between its two tests -/
+def raceWitness : List REv :=
+  [.exec call0, .w, .begin .status, .c, .task (.raise 0 1), .w, .w, .w, .c, .c, .c, .c, .c, .c, .c]
+
+/-- EXACTLY ONE TRUTHFUL FINAL STATE, FOR ALL SCHEDULES.  Whenever the worker thread has ended with outcome `o`
+(returned `r` with the cancel flag it read, or raised), status and stop message are the truthful ones, the thread is
+reported dead, a successful job shows full progress — and nothing that anybody does afterwards, in any order, changes
+outcome, status or message. -/
+theorem race_final_state_truthful (cfg : Cfg) (w : List REv) (o : Outcome)
+    (h : (rafter true cfg w).wpc = .dead o) :
+    (rafter true cfg w).st = o.st ∧ (rafter true cfg w).msg = o.msg ∧ (rafter true cfg w).alive = false ∧
+    (o.st = .success → (rafter true cfg w).prog = 8) ∧
+    ∀ w2, (rafter true cfg (w ++ w2)).wpc = .dead o ∧ (rafter true cfg (w ++ w2)).st = o.st ∧
+      (rafter true cfg (w ++ w2)).msg = o.msg := by
+  have hi := rinv_after cfg w
+  have hw := hi.1
+  simp only [wShape, h] at hw
+  refine ⟨hw.1, hw.2.1, hw.2.2.1, hw.2.2.2.2, fun w2 => ?_⟩
+  obtain ⟨hf, hi2⟩ := fate_exec cfg w2 _ hi o (by simp [h, WPc.fate])
+  simp only [rafter, exec_append] at *
+  have hpc2 := dead_exec cfg o w2 _ hi h
+  have hw2 := hi2.1
+  simp only [wShape, hpc2] at hw2
+  exact ⟨hpc2, hw2.1, hw2.2.1⟩
+
+/-- A FINAL STATUS IS ABSORBING, FOR ALL SCHEDULES: once `_status` holds SUCCESS, ERROR or CANCELED (from the very
+access that wrote it, while the worker is still finishing `stop_run`), no continuation of the schedule changes it. -/
+def RaceStatusAbsorbing (fixed : Bool) : Prop :=
+  ∀ (cfg : Cfg) (w1 w2 : List REv), (rafter fixed cfg w1).st.isFinal = true →
+    (rafter fixed cfg (w1 ++ w2)).st = (rafter fixed cfg w1).st
+
+theorem race_status_absorbing : RaceStatusAbsorbing true := by
+  intro cfg w1 w2 hf
+  have hi := rinv_after cfg w1
+  obtain ⟨o, h1, h2, _, _⟩ := wShape_final hi.1 hf
+  obtain ⟨hf2, hi2⟩ := fate_exec cfg w2 _ hi o h1
+  simp only [rafter, exec_append] at *
+  rw [h2]
+  -- the status after `w2` is final or running; with the fate decided and the status already written it is `o.st`
+  have hw2 := hi2.1
+  have hp2 := notPreFinal_exec cfg w2 _ hi (by assumption)
+  exact wShape_st_of_fate hw2 hf2 hp2
+
+/-- THE CODE BEFORE THE FIX VIOLATES IT: `execute_async(5)`; the worker enters the task; `job.status` reads
+`_status.running == True`; the task raises, the worker writes ERROR and the message and exits; the status query goes
+on, finds the thread dead and calls `stop_run()`: the job that failed is SUCCESS for good, message `None`. -/
+theorem race_status_absorbing_fails_on_current_code : ¬ RaceStatusAbsorbing false := by
+  intro h
+  have := h cfg0 (raceWitness.take 8) (raceWitness.drop 8)
+  revert this
+  decide
+
+theorem current_code_reports_failed_task_as_success :
+    (rafter false cfg0 raceWitness).wpc = .dead (.raised 0 1) ∧ (rafter false cfg0 raceWitness).st = .success ∧
+    (rafter false cfg0 raceWitness).msg = .none ∧
+    (routs false cfg0 raceWitness).getLast? = some (.step .rProg (some (.status .success .none 8))) ∧
+    .step .rProg (some (.status .error (.task 0 1) 0)) ∈ routs true cfg0 raceWitness := by
+  decide
+
+/-- REPORTED AS RUNNING UNTIL THE WORKER WRITES THE END, FOR ALL SCHEDULES: from the acceptance of `execute_async`
+until the worker's own write of the final status, `_status` is RUNNING and there is no stop message — whatever the
+caller does meanwhile; in particular the liveness repair of `LocalJob.status` never fires (`rep1..3` unreachable). -/
+theorem race_running_until_written (cfg : Cfg) (w : List REv)
+    (hs : (rafter true cfg w).started = true) (hp : (rafter true cfg w).wpc.preFinal = true) :
+    (rafter true cfg w).st = .running ∧ (rafter true cfg w).msg = .none ∧ (rafter true cfg w).alive = true := by
+  have hw := (rinv_after cfg w).1
+  generalize rafter true cfg w = s at *
+  unfold wShape at hw
+  split at hw
+  · rename_i hpc; rw [hpc] at hp; simp [WPc.preFinal] at hp
+  · rename_i hpc; rw [hpc] at hp; simp [WPc.preFinal] at hp
+  · rename_i hpc; rw [hpc] at hp; simp [WPc.preFinal] at hp
+  · rename_i hpc; rw [hpc] at hp; simp [WPc.preFinal] at hp
+  · rename_i hpc; rw [hpc] at hp; simp [WPc.preFinal] at hp
+  · simp [hw.1, hw.2.1, hw.2.2, hs]
+
+theorem race_repair_never_fires (cfg : Cfg) (w : List REv) (k : Cont) :
+    (rafter true cfg w).cpc ≠ .rep1 k ∧ (rafter true cfg w).cpc ≠ .rep2 k ∧ (rafter true cfg w).cpc ≠ .rep3 k := by
+  have hc := (rinv_after cfg w).2.1
+  refine ⟨fun h => ?_, fun h => ?_, fun h => ?_⟩ <;> simp [cShape, h] at hc
+
+/-- NO OBSERVATION IS EVER WRONG, FOR ALL SCHEDULES (the reads of one `job.status` observation are three separate
+accesses).  In any reachable state, when the caller's step completes an observation `(a, m, p)`: a final `a` is the
+truthful status of the outcome already decided at the worker; `m` is `None` (the worker may not have written the
+message yet — `stop_run` writes the status first, as the code does) or the truthful message. -/
+theorem race_observation_truthful (cfg : Cfg) (w : List REv) (acc : Acc) (a : St) (m : Msg) (p : Nat)
+    (h : (rstep true cfg (rafter true cfg w) .c).2 = .step acc (some (.status a m p))) :
+    (a.isFinal = true → ∃ o, (rafter true cfg w).wpc.fate = some o ∧ a = o.st) ∧
+    (m = .none ∨ ∃ o, (rafter true cfg w).wpc.fate = some o ∧ m = o.msg) := by
+  have hc := (rinv_after cfg w).2.1
+  generalize rafter true cfg w = s at *
+  simp only [rstep] at h
+  unfold callerStep at h
+  split at h
+  all_goals (rename_i hpc; try (repeat' split at h) <;> try (simp at h; done))
+  simp only [ROut.step.injEq, Option.some.injEq, Out.status.injEq] at h
+  obtain ⟨_, rfl, rfl, _⟩ := h
+  simp only [cShape, hpc] at hc
+  refine ⟨fun ha => ?_, ?_⟩
+  · obtain ⟨o, h1, h2, _⟩ := hc.1 ha; exact ⟨o, h1, h2⟩
+  · rcases hc.2 with h | ⟨o, h1, h2, _⟩
+    · exact Or.inl h
+    · exact Or.inr ⟨o, h1, h2⟩
+
+/-- THE OUTCOME IS THE TASK'S.  A task that raises ends ERROR with its own type and text, under every schedule,
+whatever the cancel flag: from the raise on, the decided outcome is `raised cls text` and stays so. -/
+theorem race_raise_is_error (cfg : Cfg) (w1 w2 : List REv) (c t : Nat)
+    (h : (rafter true cfg w1).wpc = .inTask) :
+    (rafter true cfg (w1 ++ .task (.raise c t) :: w2)).wpc.fate = some (.raised c t) := by
+  have hi := rinv_after cfg w1
+  have hstd : (rafter true cfg w1).started = true := by
+    cases hq : (rafter true cfg w1).started
+    · rw [hi.2.2.1 hq] at h; simp at h
+    · rfl
+  have hw := hi.1
+  simp only [wShape, h] at hw
+  simp only [rafter, exec_append, exec_cons] at *
+  have hal : (exec (rstep true cfg) (rinit cfg) w1).alive = true := by rw [hw.2.2]; exact hstd
+  refine (fate_exec cfg w2 _ (rinv_step cfg _ _ hi) _ ?_).1
+  simp [rstep, taskStep, h, hstd, hal, WPc.fate]
+
+/-- CANCELED iff cancellation was requested before the task returned, at access granularity:
+(1) `cancel()` completed before the task's return ⇒ the decided outcome is `returned r true` (CANCELED) for good;
+(2) no `cancel()` at all ⇒ never CANCELED;
+(3) once the worker has read the flag as unset (`stop1 r false`), a later `cancel()` does not turn SUCCESS into CANCELED.
+Between the task's return and the worker's read of the flag both are possible (the example below). -/
+theorem race_cancel_before_return (cfg : Cfg) (w1 w2 : List REv) (r : Ret)
+    (h : (rafter true cfg w1).wpc = .inTask) (hc : (rafter true cfg w1).cancelReq = true) (o : Outcome)
+    (hd : (rafter true cfg (w1 ++ .task (.ret r) :: w2)).wpc.fate = some o) :
+    o = .returned r true := by
+  have hi := rinv_after cfg w1
+  have hstd : (rafter true cfg w1).started = true := by
+    cases hq : (rafter true cfg w1).started
+    · rw [hi.2.2.1 hq] at h; simp at h
+    · rfl
+  have hw := hi.1
+  simp only [wShape, h] at hw
+  simp only [rafter, exec_append, exec_cons] at *
+  have h1 : CancelledRet r (rstep true cfg (exec (rstep true cfg) (rinit cfg) w1) (.task (.ret r))).1 := by
+    have hal : (exec (rstep true cfg) (rinit cfg) w1).alive = true := by rw [hw.2.2]; exact hstd
+    left
+    simp [rstep, taskStep, h, hstd, hal, hc]
+  obtain ⟨h2, _⟩ := cancelledRet_exec cfg r w2 _ (rinv_step cfg _ _ hi) h1
+  rcases h2 with ⟨_, h2 | h2⟩ | h2
+  · rw [h2] at hd; simp [WPc.fate] at hd
+  · rw [h2] at hd; simp [WPc.fate] at hd
+  · rw [h2] at hd; exact (Option.some.inj hd).symm
+
+theorem race_never_canceled_without_cancel (cfg : Cfg) (w : List REv) (r : Ret)
+    (hc : (rafter true cfg w).cancelReq = false) : (rafter true cfg w).wpc.fate ≠ some (.returned r true) := by
+  intro h
+  have := (rinv_after cfg w).2.2.2.1 r h
+  rw [hc] at this; simp at this
+
+theorem race_cancel_after_flag_read_is_success (cfg : Cfg) (w1 w2 : List REv) (r : Ret)
+    (h : (rafter true cfg w1).wpc = .stop1 r false) :
+    (rafter true cfg (w1 ++ w2)).wpc.fate = some (.returned r false) := by
+  simp only [rafter, exec_append]
+  exact (fate_exec cfg w2 _ (rinv_after cfg w1) _ (by simp [h, WPc.fate])).1
+
+/-- between the return and the worker's read of the flag, `cancel()` still makes the job CANCELED … -/
+example : (rafter true cfg0 [.exec call0, .w, .task (.ret ret0), .begin .cancel, .c, .w, .w, .w, .w, .w]).st = .canceled := by
+  decide
+/-- … after the read it does not -/
+example : (rafter true cfg0 [.exec call0, .w, .task (.ret ret0), .w, .w, .begin .cancel, .c, .w, .w, .w, .w]).st = .success ∧
+    (rafter true cfg0 [.exec call0, .w, .task (.ret ret0), .w, .w]).wpc = .stop1 ret0 false := by decide
+example : (rafter true cfg0 [.exec call0, .w]).wpc = .inTask ∧
+    (rafter true cfg0 [.exec call0, .w, .begin .cancel, .c]).cancelReq = true ∧
+    (rafter true cfg0 [.exec call0, .w, .begin .cancel, .c]).wpc = .inTask := by decide
+
+/-- RESULTS UNDER EVERY SCHEDULE.  In any reachable state, when a step of `get_results()` hands out a value `v`:
+the worker has written the final status before (so the task has ended — no value while it runs), and if the task
+returned `r`, `v` is `r` or `r` converted exactly once with the job's mapping arguments. -/
+theorem race_results_value (cfg : Cfg) (w : List REv) (acc : Acc) (v : Ret)
+    (h : (rstep true cfg (rafter true cfg w) .c).2 = .step acc (some (.results v))) :
+    (rafter true cfg w).wpc.preFinal = false ∧
+    ∀ r c, (rafter true cfg w).wpc.fate = some (.returned r c) →
+      v = r ∨ convertRet (rafter true cfg w).mapping r = some v := by
+  have hi := rinv_after cfg w
+  obtain ⟨_, hc, _, _, hres⟩ := hi
+  generalize rafter true cfg w = s at *
+  simp only [rstep] at h
+  unfold callerStep at h
+  split at h
+  all_goals (rename_i hpc; try (repeat' split at h) <;> try (simp at h; done))
+  · -- conversion performed now
+    rename_i hmp _ r' hcv
+    simp only [ROut.step.injEq, Option.some.injEq, Out.results.injEq] at h
+    obtain ⟨_, rfl⟩ := h
+    simp only [cShape, hpc] at hc
+    refine ⟨hc.1, fun r c hf => ?_⟩
+    rcases hres.2 r c hf with hh | hh
+    · right; rw [← hh]; exact hcv
+    · rw [hmp] at hh; simp at hh
+  · simp only [ROut.step.injEq, Option.some.injEq, Out.results.injEq] at h
+    obtain ⟨_, rfl⟩ := h
+    simp only [cShape, hpc] at hc
+    refine ⟨hc.1, fun r c hf => ?_⟩
+    rcases hres.2 r c hf with hh | hh
+    · exact Or.inl hh
+    · exact Or.inr hh.2
+
+example : (routs true cfg1 [.exec call0, .w, .task (.ret ret0), .begin .get, .c, .c, .w, .w, .w, .w, .w, .w,
+      .begin .get, .c, .c, .c, .c, .c, .begin .get, .c, .c, .c, .c, .c]).filterMap (fun o => match o with
+        | .step _ (some (.results v)) => some (some v) | .step _ (some (.exc .stillRunning)) => some none | _ => none) =
+    [none, some (.dict (.mapped (.nat 7) [(2, some 3)])), some (.dict (.mapped (.nat 7) [(2, some 3)]))] := by decide
 
 end PM.C18
